@@ -1052,12 +1052,13 @@ class C12(Property):
             "writer with minimal/all/nonnumeric/random quoting, comma or tab, header, blank lines), svm (LibSVM/Manik rows), arff (typed "
             "table 0-8 x 1-6: numeric/string/date/nominal, missing cells, values with , ' \" \\ space % ? { } non-ASCII; dense or sparse; "
             "Weka/liac canonical writer or a random subset of permitted spellings). csv/svm/arff lines are delivered directly, through "
-            "DiskSink/DiskSource, through _byte_it_, or with their terminators kept (LF/CRLF/mixed, blank lines between and after records). non-trivial: >=2 lines and >=2 pieces (chunk/delim), >=1 row otherwise")
+            "DiskSink/DiskSource, through _byte_it_, or with their terminators kept (LF/CRLF/mixed, blank lines between and after records); reuse (one reader object on 2-3 different inputs, some reads abandoned). non-trivial: >=2 lines and >=2 pieces (chunk/delim), >=1 row otherwise")
     trusted_base = [
         "zlib/gzip: streaming decompression is assumed to be a homomorphism on concatenation (Decomp.Lawful); the harness feeds the model the decompressed pieces its own decompressobj returns",
         "CPython: str.splitlines / bytes.decode / csv.reader / int() / float() / TextIOWrapper(newline=None) are modelled (splitlines, u8step, csvChar, universalNl) and the models are compared with them on every case",
         "text->number conversion (float/int of a token) is CPython's on both sides; the model works on tokens",
         "ARFF: the whole reader (attribute header, data section, encoders, missing flags, dense simple path + fallback parser, sparse rows) is modelled (`arffRead`) and compared with ArffReader on every ARFF case, errors included; Lean theorems cover the header, dense and sparse data lines and the respellings; str.lower is modelled on ASCII only, int()/float() acceptance by `parseInt`/`isFloatLit` (ASCII decimal literals, no underscores)",
+        "reader objects: in the model a reader carries only its constructor arguments (ReaderKind); that the real CsvReader/ArffReader/LibsvmReader/ManikReader objects keep nothing else between inputs is checked by the `reuse` cases ((B) reused = fresh, (A) reused = readerRun)",
         "zlib: Decomp.Lawful (L1 empty input, L2 concatenation) is assumed of decompressobj.decompress; the harness checks on every chunk case that the returned pieces concatenate to the plain stream",
     ]
     assumptions = [
@@ -1069,7 +1070,8 @@ class C12(Property):
     partial_theorems = {
         "chunk_invariance_partial": "the code as it stands is chunk-invariant only on cuts that split no character, no CR LF pair and do not end in an exotic line boundary; the full theorem chunk_invariance is proved for the repaired loop (fixes/C12-utf8-incremental-decoder.diff, fixes/C12-delim-line-boundaries.diff)",
         "arff_dense_roundtrip_partial": "ArffLineReader reads back the data lines of the Weka/OpenML writer only when no value holds the other quote character: such lines go to the fallback parser (_dense_advanced, modelled as advLoop and compared by (A)), which loses backslashes and raises IndexError (known finding C12-F11, no small repair)",
-        "arff_sparse_roundtrip_partial": "ArffLineReader._sparse has no quote handling (C12-F10): proved for bare values (no white space, comma, trailing brace); the sparse missing flag and the header+data composition are not proved (compared by (A) only)",
+        "arff_sparse_roundtrip_partial": "ArffLineReader._sparse has no quote handling (C12-F10): proved for bare values (no white space, comma, trailing brace); the sparse missing flag and the sparse whole-file composition are not proved (compared by (A) only)",
+        "arff_dense_table_roundtrip": "whole dense files: full for the writer's dialect under hypotheses each forced by a recorded finding (F8, F9, F11, F12/F15: no '?' inside strings/levels, F13, F17) or by the format (a data line must not begin with '%', at least one row)",
         "arff_header_roundtrip": "full for the writer's dialect; hypotheses forced by C12-F8 (no backslash in a quoted name/level) and C12-F9 (a quoted level must not begin with a comma; the theorem also asks that it does not begin with white space, which the code would accept)",
         "csv_roundtrip_partial": "CsvReader strips every line (str.strip) and raises StopIteration on an empty input; the full theorem csv_roundtrip is proved for the repaired reader (fixes/C12-csv-strip.diff, fixes/C12-csv-empty.diff)",
     }
@@ -1397,6 +1399,19 @@ class C12(Property):
                     fails.append(F("C", "model: repaired pipeline differs from the whole-text reading", "C:chunk_invariance"))
                 if ans["good"] and m["cur"] != m["whole"]:
                     fails.append(F("C", "model: current pipeline differs on a good cut", "C:chunk_invariance_partial"))
+        if driver is not None and text is not None and enc is None and len(plain) <= 60 and case["chunk"] != "all":
+            # a stream whose first n bytes are swallowed by the decompressor (empty outputs mid-stream), Decomp.skip
+            n = 1 + (len(plain) % 5)
+            k = max(1, int(case["chunk"]))
+            stream = bytes([0x1f] * n) + plain
+            chunks = [list(stream[i:i + k]) for i in range(0, len(stream), k)]
+            ans = driver.ask({"op": "chunkskip", "n": n, "chunks": chunks})
+            tags.append("skip-decompressor")
+            if any(len(p) == 0 for p in ans["pieces"]):
+                tags.append("skip-decompressor:empty-output")
+            got = self._lines_from_model(ans["fix"])
+            if got != expected or self._lines_from_model(ans["whole"]) != expected:
+                fails.append(F("C", "model: readFix (Decomp.skip %d) gives %r, the text has lines %r" % (n, got, expected), "C:delivery_invariance_header_skip"))
         return {"fails": fails, "nontrivial": nontrivial, "tags": sorted(set(tags)), "impl": impl_all if len(sizes) <= 3 else {"sizes": len(sizes)},
                 "model": model_all if len(sizes) <= 3 else None}
 
@@ -1599,6 +1614,7 @@ class C12(Property):
             run = lambda sub, lines, r: run_svm(lines, fmt == "manik", reader=r)
         reader = mk()
         impl_all = []
+        reused = {}
         for k, (sub, ab) in enumerate(zip(case["inputs"], case["abandon"])):
             lines = self._sub_lines(sub)
             if ab:
@@ -1620,6 +1636,7 @@ class C12(Property):
             fresh = run(sub, lines, mk())
             got.pop("msg", None)
             fresh.pop("msg", None)
+            reused[k] = got
             impl_all.append(got if "err" in got else "ok")
             if got != fresh:
                 before = ["input %d%s" % (j, " (abandoned after one row)" if case["abandon"][j] else "") for j in range(k)]
@@ -1627,6 +1644,37 @@ class C12(Property):
                                % ({"csv": "CsvReader", "arff": "ArffReader", "svm": "LibsvmReader", "manik": "ManikReader"}[fmt], len(case["inputs"]), k, lines, got, fresh,
                                   ", ".join(before) or "nothing"),
                                "reuse:%s:input-%s-differs-from-fresh-reader" % (fmt, "0" if k == 0 else "k")))
+        if driver is not None:
+            # (A) the history through the Lean reader object (`readerRun`, frame theorem reader_history_frame)
+            req = {"op": "readerrun", "kind": fmt, "inputs": [{"lines": [cps(l) for l in self._sub_lines(sub)], "abandon": bool(ab)}
+                                                               for sub, ab in zip(case["inputs"], case["abandon"])]}
+            if fmt == "csv":
+                req.update({"delim": ord(d), "header": hh})
+            res = driver.ask(req)["results"]
+            for k, (sub, ab, m) in enumerate(zip(case["inputs"], case["abandon"], res)):
+                if ab:
+                    if m is not None:
+                        fails.append(F("A", "model: an abandoned read returned %r" % (m,), "A:reuse-model"))
+                    continue
+                lines = self._sub_lines(sub)
+                got = reused[k]
+                if fmt == "csv":
+                    mm = self._csv_from_model(m)
+                    g = got if "err" in got else {"ok": {"header": got["ok"]["header"], "rows": got["ok"]["rows"]}}
+                    if g != mm:
+                        fails.append(F("A", "reused CsvReader on input %d: implementation %r, model readerRun %r" % (k, g, mm), "A:reuse-csv"))
+                elif fmt == "arff":
+                    self._arff_read_model(lines, sub["dense"], got, driver, fails, tags, ans=m, sig="A:reuse-arff")
+                else:
+                    if "err" in m:
+                        mm = {"err": m["err"]}
+                    else:
+                        try:
+                            mm = {"ok": [[{int(uncps(a)): float(uncps(b)) for a, b in r["feats"]}, [uncps(l) for l in r["labels"]]] for r in m["ok"]]}
+                        except ValueError:
+                            mm = {"err": "ValueError"}
+                    if got != mm:
+                        fails.append(F("A", "reused %s on input %d: implementation %r, model readerRun %r" % (fmt, k, got, mm), "A:reuse-svm"))
         return {"fails": fails, "nontrivial": len(case["inputs"]) >= 2, "tags": sorted(set(tags)), "impl": impl_all, "model": None}
 
     # .................................................................. svm
@@ -1701,10 +1749,11 @@ class C12(Property):
             model = self._arff_sparse_model(case, lines, driver, fails, tags)
         return {"fails": fails, "nontrivial": len(case["table"]["rows"]) >= 1, "tags": sorted(set(tags)), "impl": impl_out, "model": model}
 
-    def _arff_read_model(self, lines, dense, impl, driver, fails, tags):
+    def _arff_read_model(self, lines, dense, impl, driver, fails, tags, ans=None, sig="A:arff-read"):
         """(A) the whole ArffReader (header, data section, encoders, missing flag, fallback parser, sparse rows)
         against the Lean model `arffRead` on the very lines coba got"""
-        ans = driver.ask({"op": "arffread", "lines": [cps(l) for l in lines]})["result"]
+        if ans is None:
+            ans = driver.ask({"op": "arffread", "lines": [cps(l) for l in lines]})["result"]
 
         def cell(c):
             if c[0] == "missing":
@@ -1737,7 +1786,7 @@ class C12(Property):
             got = {"ok": [{"cells": x["cells"], "missing": x["missing"]} for x in impl["ok"]]}
         tags.append("arffread:" + ("error" if "err" in model else "rows"))
         if got != model:
-            fails.append(F("A", "ArffReader().filter(%r): implementation %r, Lean model arffRead %r" % (lines, got, model), "A:arff-read"))
+            fails.append(F("A", "ArffReader().filter(%r): implementation %r, Lean model arffRead %r" % (lines, got, model), sig))
 
     def _arff_header_model(self, case, lines, driver, fails, tags):
         """(A) the spec's header writer (AttrW.line) vs the harness writer, and (C) arff_header_roundtrip:
@@ -1771,6 +1820,7 @@ class C12(Property):
             else:
                 typ = {"k": "string", "w": cps(kw("string", tc, sp, ("ty", j)))}
             attrs.append({"kw": cps(kw("@attribute", kc, sp, ("at", j))), "sep": ord(ws), "name": tok(c["name"], ("nm", j)), "gap": cps(ws), "typ": typ})
+        case_spec = {"q": q, "also": also, "attrs": attrs}
         ans = driver.ask({"op": "hdrwrite", "q": q, "also": also, "dense": case["dense"], "attrs": attrs})
         mine = [l.strip() for l in lines if l.strip().lower().startswith("@attribute")]
         theirs = [uncps(l) for l in ans["lines"]]
@@ -1780,6 +1830,42 @@ class C12(Property):
             tags.append("arffheader:theorem-hypotheses-hold")
             if ans["model"] != {"ok": ans["want"]}:
                 fails.append(F("C", "model: arffAttrs(write attrs) = %r, written %r" % (ans["model"], ans["want"]), "C:arff_header_roundtrip"))
+        if mine == theirs and case["dense"]:
+            self._arff_table_model(case, lines, case_spec, driver, fails, tags)
+
+    def _arff_table_model(self, case, lines, spec, driver, fails, tags):
+        """(A) the spec's whole-file writer vs the harness file (attribute, @data and data lines) and
+        (C) arff_dense_table_roundtrip: under its hypotheses the model of the whole reader returns the written table"""
+        t, sp = case["table"], case["sp"]
+        sep = sp.get("sep", ",")
+        if sep not in (",", ", ", ",  ") or not t["rows"]:
+            return
+        q = spec["q"]
+        rows = []
+        for i, row in enumerate(t["rows"]):
+            cells = []
+            for j, (c, v) in enumerate(zip(t["cols"], row)):
+                if v is None:
+                    cells.append({"q": False, "k": "missing"})
+                    continue
+                w = arff_cell(c, v, sp, ("cell", i, j))
+                kind = {"numeric": "num", "nominal": "cat"}.get(c["type"], "str")
+                cells.append({"q": w[:1] == chr(q) and len(w) >= 2 and w != v, "k": kind, "t": cps(v)})
+            rows.append({"pad": len(sep) - 1, "cells": cells})
+        dkw = [l.strip() for l in lines if l.strip().lower() == "@data"][0]
+        ans = driver.ask({"op": "tablewrite", "q": q, "also": spec["also"], "dkw": cps(dkw), "attrs": spec["attrs"], "rows": rows})
+        k = [i for i, l in enumerate(lines) if l.strip().lower() == "@data"][0]
+        mine = [l.strip() for l in lines[:k] if l.strip().lower().startswith("@attribute")] + [dkw] + \
+               [l.strip() for l in lines[k + 1:] if l.strip() and not l.strip().startswith("%")]
+        theirs = [uncps(l) for l in ans["lines"]]
+        if mine != theirs:
+            # the dense data writer of the spec escapes with one `also` set; mixed styles are outside (compared line-wise elsewhere)
+            tags.append("arfftable:writer-outside-spec")
+            return
+        if ans["hyp"]:
+            tags.append("arfftable:theorem-hypotheses-hold")
+            if ans["model"] != {"ok": ans["want"]}:
+                fails.append(F("C", "model: arffReadN(whole written file) = %r, written %r" % (ans["model"], ans["want"]), "C:arff_dense_table_roundtrip"))
 
     def _arff_sparse_model(self, case, lines, driver, fails, tags):
         """(A) ArffLineReader(False,n) + ArffDataReader._sparse per data line vs `arffSparseLine`/`sparseMissing`;
